@@ -47,13 +47,13 @@ def run(prop, family, t, tier, rule_extra=''):
         vlib.tool_error(f'analysis records incomplete: {len(seen)} + {len(dead)} dead of {nprog}')
     execs = sum(r['Execs'] for r in truth.values())
     branches = sum(r['Branches'] for r in truth.values())
-    with_flow = sum(1 for r in truth.values() if r['Flows'])
+    with_flow = sum(1 for r in truth.values() if any(f.startswith('S') for f in (r['Flows'] or [])))
     outcomes = {}
     evals = 0
     dump = open(f'{V}/build/last-{prop}.jsonl', 'w')
     samples = []
     for r in recs:
-        tr = set(truth[r['idx']]['Flows'] or [])
+        tr = {f for f in (truth[r['idx']]['Flows'] or []) if f.startswith('S')}
         if r.get('load_err'):
             vlib.tool_error(f"generated program does not type-check: {r['sig']}: {r['load_err']}")
         for ci, res in enumerate(r['results']):
@@ -73,7 +73,7 @@ def run(prop, family, t, tier, rule_extra=''):
             samples.append(dict(sig=r['sig'], truth=sorted(tr), reported_default=r['results'][0]['Flows']))
     dump.close()
     for idx, (sig, tail) in dead.items():
-        tr = set(truth[idx]['Flows'] or [])
+        tr = {f for f in (truth[idx]['Flows'] or []) if f.startswith('S')}
         if tr:
             import re
             atoms = [a for a in re.split(r' \| ', sig)]
@@ -90,7 +90,7 @@ def run(prop, family, t, tier, rule_extra=''):
     with cf.ThreadPoolExecutor(vlib.NPROC) as ex:
         for r, c in zip(picked, ex.map(lambda r: cli_run(r['sig'], t['cfgs']), picked)):
             inproc = r['results'][0]
-            tr = truth[r['idx']]['Flows']
+            tr = [f for f in (truth[r['idx']]['Flows'] or []) if f.startswith('S')]
             same = (c['detected'] == bool(inproc['Flows'])) and (c['crashed'] == bool(inproc['Panic']))
             if same:
                 agree += 1
